@@ -379,44 +379,67 @@ def strTok (p : Option (List Char × List Char)) : Option (K × List Char) :=
 def litTok (p : Option (List Char × List Char)) : Option (K × List Char) :=
   p.map fun (_, r) => (.lit, dropSuffix r)
 
+/-- the literal prefixes for which `ident` rejects (`"r\"", "r#\"", "r##", "b\"", "b'", "br\"",
+    "br#", "c\"", "cr\"", "cr#"`): such a text is that kind of literal or a lex error -/
+inductive LitPrefix where
+  | rawStr | byteStr | byteChar | rawByteStr | cStr | rawCStr
+deriving DecidableEq, Repr
+
+def litPrefix : List Char → Option LitPrefix
+  | 'r' :: '"' :: _ => some .rawStr
+  | 'r' :: '#' :: '"' :: _ => some .rawStr
+  | 'r' :: '#' :: '#' :: _ => some .rawStr
+  | 'b' :: '"' :: _ => some .byteStr
+  | 'b' :: '\'' :: _ => some .byteChar
+  | 'b' :: 'r' :: '"' :: _ => some .rawByteStr
+  | 'b' :: 'r' :: '#' :: _ => some .rawByteStr
+  | 'c' :: '"' :: _ => some .cStr
+  | 'c' :: 'r' :: '"' :: _ => some .rawCStr
+  | 'c' :: 'r' :: '#' :: _ => some .rawCStr
+  | _ => none
+
+def lexPrefixed (p : LitPrefix) (cs : List Char) : Option (K × List Char) :=
+  match p with
+  | .rawStr => strTok (rawStr .str (cs.drop 1))
+  | .byteStr => litTok (cooked .bytes ((cs.drop 2).length + 1) (cs.drop 2) [])
+  | .byteChar => (charLit true (cs.drop 2)).map fun r' => (.lit, r')
+  | .rawByteStr => litTok (rawStr .bytes (cs.drop 2))
+  | .cStr => litTok (cooked .cstr ((cs.drop 2).length + 1) (cs.drop 2) [])
+  | .rawCStr => litTok (rawStr .cstr (cs.drop 2))
+
+/-- the text after a `'`: a character literal, or a lifetime (`'` must be followed by an
+    identifier that is not followed by `'`) -/
+def lexQuote (r : List Char) : Option (K × List Char) :=
+  match charLit false r with
+  | some r' => some (.lit, r')
+  | none =>
+    match r with
+    | c :: _ =>
+      if isIdStart c then
+        match lexIdent r with
+        | some (_, '\'' :: _) => none
+        | some _ => some (.punct '\'' true, r)
+        | none => none
+      else none
+    | [] => none
+
 /-- `leaf_token` on a text whose first character is not white space, not a comment start
-    that was consumed, and not a delimiter. -/
+    that was consumed, and not a delimiter.  (`literal`, then `punct`, then `ident`; the
+    first character decides which of them can apply.) -/
 def lexLeaf (cs : List Char) : Option (K × List Char) :=
   match cs with
   | [] => none
-  | '"' :: r => strTok (cooked .str (r.length + 1) r [])
-  | 'r' :: '"' :: _ => strTok (rawStr .str (cs.drop 1))
-  | 'r' :: '#' :: '"' :: _ => strTok (rawStr .str (cs.drop 1))
-  | 'r' :: '#' :: '#' :: _ => strTok (rawStr .str (cs.drop 1))
-  | 'b' :: '"' :: r => litTok (cooked .bytes (r.length + 1) r [])
-  | 'b' :: '\'' :: r => (charLit true r).map fun r' => (.lit, r')
-  | 'b' :: 'r' :: '"' :: _ => litTok (rawStr .bytes (cs.drop 2))
-  | 'b' :: 'r' :: '#' :: _ => litTok (rawStr .bytes (cs.drop 2))
-  | 'c' :: '"' :: r => litTok (cooked .cstr (r.length + 1) r [])
-  | 'c' :: 'r' :: '"' :: _ => litTok (rawStr .cstr (cs.drop 2))
-  | 'c' :: 'r' :: '#' :: _ => litTok (rawStr .cstr (cs.drop 2))
-  | '\'' :: r =>
-    match charLit false r with
-    | some r' => some (.lit, r')
-    | none =>
-      -- a lifetime: `'` must be followed by an identifier that is not followed by `'`
-      match r with
-      | c :: _ =>
-        if isIdStart c then
-          match lexIdent r with
-          | some (_, '\'' :: _) => none
-          | some _ => some (.punct '\'' true, r)
-          | none => none
-        else none
-      | [] => none
   | c :: r =>
-    if c.isDigit then lexNumber cs
+    if c = '"' then strTok (cooked .str (r.length + 1) r [])
+    else if c = '\'' then lexQuote r
+    else if c.isDigit then lexNumber cs
     else if isPunctCh c then
-      match c, r with
-      | '/', '/' :: _ => none
-      | '/', '*' :: _ => none
-      | _, _ => some (.punct c (punctNext r), r)
-    else if isIdStart c then lexIdent cs
+      (if c = '/' ∧ (r.head? = some '/' ∨ r.head? = some '*') then none
+       else some (.punct c (punctNext r), r))
+    else if isIdStart c then
+      (match litPrefix cs with
+       | some p => lexPrefixed p cs
+       | none => lexIdent cs)
     else none
 
 /-! ## the token stream -/
